@@ -42,6 +42,9 @@ func constInt(p *packages.Package, e ast.Expr) (int64, bool) {
 }
 
 func constStr(p *packages.Package, e ast.Expr) (string, bool) {
+	if e == nil {
+		return "", false
+	}
 	v := constOf(p, e)
 	if v == nil || v.Kind() != constant.String {
 		return "", false
